@@ -2,7 +2,7 @@
 # usage: tools/try_seeded.sh <seeded dir name e.g. C04_a> [tier]
 # applies the patch to a scratch worktree of /repo's HEAD, runs the property's check against it (VERIF_REPO), removes the worktree;
 # evidence of the trial goes to a scratch directory, never to /verif/evidence
-d=/verif/seeded/$1; prop=$(echo $1 | cut -d_ -f1); tier=${2:-quick}
+d=/verif/seeded/$1; prop=${3:-$(echo $1 | cut -d_ -f1)}; tier=${2:-quick}
 wt=/tmp/try_wt_$1
 git -C /repo worktree remove --force $wt >/dev/null 2>&1
 git -C /repo worktree add --detach $wt HEAD -q || exit 2
